@@ -46,7 +46,7 @@ def main():
         for c in args.checks.split(","):
             cmd = "cd %s && ./check %s --tier %s" % (VERIF, c, args.tier)
             if args.only:
-                cmd += " --only %s" % args.only
+                cmd += " --only=%s" % args.only
             if args.deadline:
                 cmd += " --deadline %s" % args.deadline
             t0 = time.time()
